@@ -202,8 +202,13 @@ def run_server(kconfig, sdkconfig, sdkconfig_rename, default_version=MAX_PROTOCO
 
             if req["version"] == 1:
                 # V1 response, invisible items have value None
-                for k in (k for (k, v) in visible_diff.items() if not v):
-                    values_diff[k] = None
+                for k, v in visible_diff.items():
+                    if not v:
+                        values_diff[k] = None
+                    elif k in after:
+                        # The client was told null/false while the item was invisible, so it
+                        # needs the current value even if the value itself has not changed.
+                        values_diff[k] = after[k]
                 response = {"version": 1, "values": values_diff, "ranges": ranges_diff}
             else:
                 # V2+ response, separate visibility values
